@@ -85,3 +85,12 @@ def gnu_or_lld_available():
         r = sh(["which", tool], timeout=10)
         if r.rc != 0:
             raise ToolError(f"required tool missing: {tool}")
+
+
+def tlc_parallel(calls):
+    """Run several TLC jobs concurrently. calls: list of (args tuple, kwargs dict) for tlc.run_tlc.
+    Returns the results in order; exceptions (ToolError) propagate."""
+    from . import tlc as _tlc
+    with ThreadPoolExecutor(max_workers=len(calls)) as ex:
+        futs = [ex.submit(_tlc.run_tlc, *a, **kw) for a, kw in calls]
+        return [f.result() for f in futs]
